@@ -335,6 +335,21 @@ impl<K: Hash + Eq, V, FH: BuildHasher, RH: BuildHasher> SegmentedCache<K, V, FH,
     }
 }
 
+#[cfg(feature = "verif-hooks")]
+impl<K, V, FH, RH> SegmentedCache<K, V, FH, RH> {
+    /// Verification hook: `(probationary, protected)` segments.
+    #[doc(hidden)]
+    #[allow(clippy::type_complexity)]
+    pub fn verif_parts(
+        &self,
+    ) -> (
+        &RawLRU<K, V, DefaultEvictCallback, RH>,
+        &RawLRU<K, V, DefaultEvictCallback, FH>,
+    ) {
+        (&self.probationary, &self.protected)
+    }
+}
+
 impl<K: Hash + Eq, V, FH: BuildHasher, RH: BuildHasher> Cache<K, V>
     for SegmentedCache<K, V, FH, RH>
 {
